@@ -31,6 +31,9 @@ struct MatchCtx {
 };
 
 // Does the rule match message m (header as the bus sees it)?  [S] conjunction of all present keys.
+// Canonical text of a parsed rule (every value single-quoted), the inverse of parse_match_rule up to key order.
+std::string render_rule(const MatchRule& r);
+
 bool rule_matches(const MatchRule& r, const Msg& m, const MatchCtx& cx);
 
 }  // namespace vp
